@@ -45,10 +45,10 @@ def findings_table():
     return '\n'.join(rows)
 
 
-def round2():
+def round2(pat='*-r*'):
     tot = own = other = 0
     missed = []
-    for mp in sorted(glob.glob(os.path.join(ROOT, 'seeded', '*-r*', 'meta.json'))):
+    for mp in sorted(glob.glob(os.path.join(ROOT, 'seeded', pat, 'meta.json'))):
         m = json.load(open(mp))
         tot += 1
         if m.get('caught'):
@@ -70,7 +70,7 @@ def main():
     nfixed = sum(1 for e in ents if e['status'] == 'fixed')
     nopen = sum(1 for e in ents if e['status'] == 'open')
     nh = sum(1 for l in open(os.path.join(ROOT, 'HARNESSES.md')) if l.startswith('### '))
-    s = s.replace('@@TABLE@@', cost_table()).replace('@@FINDINGS@@', findings_table()).replace('@@ROUND2@@', round2())
+    s = s.replace('@@TABLE@@', cost_table()).replace('@@FINDINGS@@', findings_table()).replace('@@ROUND2@@', round2()).replace('@@ROUND3@@', round2('*-s[0-9]'))
     s = s.replace('@@NFIXED@@', str(nfixed)).replace('@@NOPEN@@', str(nopen)).replace('@@NHARNESS@@', str(nh))
     open(os.path.join(ROOT, 'DESIGN.md'), 'w').write(s)
     print('DESIGN.md: %d lines' % s.count('\n'))
